@@ -664,63 +664,87 @@ theorem C14_collection (s : St) (op : Op) (e : Err) (h : (step s op).2 = .err e)
 example : (step exState (.remove 99)).2 = .err .valueError := by decide
 example : (step exState (.nextNumber 0)).2 = .err .valueError := by decide
 
-/-- **C14_append_renumber_link_refuted** — `append_renumber` links the object to the problem *before*
-    it can fail: `cells.append_renumber(cell_with_taken_number, step=0)` raises `ValueError` and
-    leaves the object linked (known finding C14-F1; witness: the C06 example state, a fresh object 9
-    whose number 1 is taken, step 0). -/
-theorem C14_append_renumber_link_refuted :
-    ¬ (∀ (s : St) (o : ObjId) (k : Int) (e : Err), (appendRenumber s o k).2 = .err e →
-        (appendRenumber s o k).1.link o = s.link o) := by
-  intro h
-  have := h exState 9 0 .valueError (by decide)
-  revert this
-  decide
-
-/-- **C14_append_renumber_link_partial** — outside that case the full statement holds: when the
-    object is already linked to this problem, or the collection is free-standing, a failing
-    `append_renumber` leaves every link as it was. -/
-theorem C14_append_renumber_link_partial (s : St) (o : ObjId) (k : Int) (e : Err)
-    (hpre : s.link o = true ∨ s.owned = false)
-    (h : (appendRenumber s o k).2 = .err e) : (appendRenumber s o k).1.link = s.link := by
-  have hs0 : ({ s with link := fun x => if x = o ∧ s.owned = true then true else s.link x } : St) = s := by
-    cases s with
-    | mk owned objs cache num link content =>
-      simp only [St.mk.injEq, true_and, and_true]
-      funext x
-      rcases hpre with hp | hp
-      · simp only [] at hp
-        by_cases hx : x = o
-        · subst hx; simp [hp]
-        · simp [hx]
-      · simp only [] at hp
-        simp [hp]
+/-- **C14_append_renumber_atomic** (full strength since MontePy's repair of finding C14-F1: the number is found
+    before the object is linked) — a failing `append_renumber` (`step = 0`, a step that leads to no number above 0,
+    a conflict) leaves the members, every number and every link to the problem exactly as they were, for every
+    state, object and step.  Rounds 1-2 had `C14_append_renumber_link_refuted` (witness: a fresh object whose
+    number is taken, step 0: `ValueError` with the object left linked) and a `_partial`. -/
+theorem C14_append_renumber_atomic (s : St) (o : ObjId) (k : Int) (e : Err)
+    (h : (appendRenumber s o k).2 = .err e) :
+    (appendRenumber s o k).1.link = s.link ∧ (appendRenumber s o k).1.objs = s.objs ∧
+    (appendRenumber s o k).1.num = s.num := by
   unfold appendRenumber at h ⊢
   split
-  · rfl
+  · exact ⟨rfl, rfl, rfl⟩
   · rename_i hno
     simp only [hno, if_false] at h
-    rw [hs0] at h ⊢
     simp only [] at h ⊢
+    have c0 := checkNumber_core s (s.num o)
     split
-    · rename_i hok; simp [hok] at h
-    · rename_i hnok
-      simp only [hnok, if_false] at h
-      have c1 := append_err_core hnok
-      have c2 := requestNumber_core (append s o).1 (s.num o) k
+    · rename_i hok0
+      simp only [hok0, if_true] at h
+      split
+      · rename_i hok; simp [hok] at h
+      · rename_i hnok
+        have c1 := append_err_core hnok
+        exact ⟨by rw [c1.link, c0.link], by rw [c1.objs, c0.objs], by rw [c1.num, c0.num]⟩
+    · rename_i hnok0
+      simp only [hnok0, if_false] at h
+      have c2 := requestNumber_core (checkNumber s (s.num o)).1 (s.num o) k
       split
       · rename_i n hn
         simp only [hn] at h
         split
-        · rename_i hok3
+        · exact ⟨by rw [c2.link, c0.link], by rw [c2.objs, c0.objs], by rw [c2.num, c0.num]⟩
+        · rename_i hpos
+          simp only [hpos, if_false] at h
+          generalize hs3 : ({ (requestNumber (checkNumber s (s.num o)).1 (s.num o) k).1 with
+              link := fun x => if x = o ∧ s.owned = true then true
+                else (requestNumber (checkNumber s (s.num o)).1 (s.num o) k).1.link x } : St) = s3 at h ⊢
+          have hobj3 : s3.objs = (requestNumber (checkNumber s (s.num o)).1 (s.num o) k).1.objs := by rw [← hs3]
+          have hnum3 : s3.num = (requestNumber (checkNumber s (s.num o)).1 (s.num o) k).1.num := by rw [← hs3]
+          -- the offered number is above 0 and free, the object is not a member: neither the number
+          -- assignment nor the second append can fail, so this branch raises nothing
+          have hfree : n ∉ (checkNumber s (s.num o)).1.objs.map (checkNumber s (s.num o)).1.num := by
+            apply requestNumber_free (a := s.num o) (k := k)
+            cases hr : (requestNumber (checkNumber s (s.num o)).1 (s.num o) k).2 <;> simp [hr, Out.int?] at hn ⊢
+            exact hn
+          have ho3 : o ∉ s3.objs := by rw [hobj3, c2.objs, c0.objs]; exact hno
+          have hfree3 : n ∉ s3.objs.map s3.num := by rw [hobj3, hnum3, c2.objs, c2.num]; exact hfree
+          have hok3 : (setNumber s3 o n).2 = .ok := by
+            unfold setNumber
+            have hn0 : ¬ n ≤ 0 := hpos
+            simp only [hn0, if_false]
+            split
+            · have hck : (checkNumber s3 n).2 = .ok := by
+                unfold checkNumber
+                have hnf : (inNumbers s3 n).2 = false := by
+                  cases hf : (inNumbers s3 n).2 with
+                  | false => rfl
+                  | true => exact absurd ((inNumbers_found s3 n).mp hf) hfree3
+                split
+                rename_i s1 found heq
+                have h2 : found = (inNumbers s3 n).2 := by rw [heq]
+                rw [h2, hnf]
+                rfl
+              simp [hck]
+            · rfl
           simp only [hok3, if_true] at h
-          split
-          · rename_i hok4; simp [hok4] at h
-          · rename_i hnok4
-            rw [(append_err_core hnok4).link, setNumber_link, c2.link, c1.link]
-        · rw [setNumber_link, c2.link, c1.link]
-      · rw [c2.link, c1.link]
+          have hn3 := setNumber_ok_num hok3
+          have ho3' := (setNumber_objs s3 o n).1
+          have hfresh : (setNumber s3 o n).1.num o ∉ (setNumber s3 o n).1.objs.map (setNumber s3 o n).1.num := by
+            rw [hn3, ho3', map_update_of_not_mem _ _ _ _ ho3]
+            simpa using hfree3
+          have hok4 := append_ok_of_fresh hfresh
+          simp [hok4] at h
+      · exact ⟨by rw [c2.link, c0.link], by rw [c2.objs, c0.objs], by rw [c2.num, c0.num]⟩
 
-/-- non-vacuity of the partial theorem: a free-standing collection rejects with `ValueError` too -/
-example : (appendRenumber { exState with owned := false } 9 0).2 = .err .valueError := by decide
+/-- non-vacuity: the witness of the former refutation now raises with the object left alone -/
+example : (appendRenumber exState 9 0).2 = .err .valueError ∧ (appendRenumber exState 9 0).1.link 9 = exState.link 9 := by
+  decide
+
+/-- … and so does a step that walks below 1 -/
+example : (appendRenumber exState 9 (-1)).2 = .err .valueError ∧ (appendRenumber exState 9 (-1)).1.link 9 = exState.link 9 := by
+  decide
 
 end MontePyVerif.Collection
